@@ -202,11 +202,12 @@ pub fn roundtrip_case(rng: &mut Rng, ctx: &mut Ctx, all_cuts: bool) {
         }
     }
     for (i, (f, p)) in frames.iter().zip(&payloads).enumerate() {
-        let want_flag = (enc != Enc::Identity) as u8;
-        if f.flag != want_flag {
-            ctx.violation("wire-flag", format!("message {} has flag {} want {}", i, f.flag, want_flag));
+        // flag 1 = compressed with the stream's encoding; flag 0 = as serialized (always legal, a
+        // sender may leave any message uncompressed); anything else is illegal
+        if f.flag > 1 || (f.flag == 1 && enc == Enc::Identity) {
+            ctx.violation("wire-flag", format!("message {} has flag {} under encoding {}", i, f.flag, enc.name()));
         }
-        match ref_decompress(enc, &f.payload) {
+        match ref_decompress(if f.flag == 1 { enc } else { Enc::Identity }, &f.payload) {
             Ok(d) if &d == p => {}
             Ok(d) => ctx.violation("wire-payload", format!("message {}: payload differs (len {} vs {})", i, d.len(), p.len())),
             Err(e) => ctx.violation("wire-decompress", format!("message {}: independent decompressor failed: {}", i, e)),
